@@ -264,11 +264,12 @@ func c10Run(w *mc.Worker, scratch string, trace []string, judge bool) (key strin
 		viol("harness", "harness-newcache", "%v", err)
 		return "", viols
 	}
-	cch.SetActivePolicy("verif")
 	file := filepath.Join(dir, "cache")
 	var cur *c10Save
 	var saves []*c10Save
 	var other []string
+	// the very first save of a fresh state directory (made by SetActivePolicy) is hooked and judged like any other
+	defer func() { vos.Before, vos.After = nil, nil }()
 	vos.Before = func(op *vos.Op) {
 		if op.Kind == "create" && (cur == nil) && strings.HasPrefix(op.Path, file) {
 			cur = &c10Save{}
@@ -289,6 +290,16 @@ func c10Run(w *mc.Worker, scratch string, trace []string, judge bool) (key strin
 		if cur != nil && (op.Kind == "rename" || (op.Kind == "close" && false)) {
 			saves = append(saves, cur)
 			cur = nil
+		}
+	}
+	cch.SetActivePolicy("verif")
+	if cur != nil {
+		saves = append(saves, cur)
+		cur = nil
+	}
+	if judge && len(trace) == 1 {
+		for _, sv := range saves {
+			c10JudgeSave(w, tmp, file, sv, viol)
 		}
 	}
 	for i, op := range trace {
